@@ -6,3 +6,5 @@ impl From<ErrorKind> for Error { fn from(k: ErrorKind) -> Error { unimplemented!
 impl From<http::header::InvalidHeaderValue> for Error { fn from(k: http::header::InvalidHeaderValue) -> Error { unimplemented!() } }
 impl From<std::convert::Infallible> for Error { fn from(k: std::convert::Infallible) -> Error { unimplemented!() } }
 //@@ endif
+// `Result::expect` needs `E: Debug` (the repo derives it; derives are dropped by R0)
+impl std::fmt::Debug for Error { fn fmt(&self, f: &mut std::fmt::Formatter<'_>) -> std::fmt::Result { f.write_str("Error") } }
